@@ -440,6 +440,7 @@ fn chain(ctx: &mut Ctx, prop: &'static str) -> R {
         let ex = Exchange { prop, body: &cur.body, policy: pol, server: ServerPlan { msgs: vec![], close_after: plan.truth == RF::Close }, fixed_stream: Some(FixedStream { stream: &stream, consumed: 0, visible: 0, arrivals }) };
         let obs = ex.run(ctx, flow)?;
         ctx.sig3(depth as u64 * 1000 + status as u64, obs.edges.len() as u64, cur.added.len().min(9) as u64);
+        ctx.sig(obs.schedule_sig());
         // ---- the head as the receiving origin reads it
         let parsed = match parse_request_head(obs.head()) {
             Ok(Some(p)) => p,
